@@ -352,3 +352,39 @@ Example C18_settings_examples :
     inr (mkSt 1 1 1 1 0, [EvDefault 0; EvFill 0 (FTConf 0) (mkV 100 200 0); EvCtor 0 (AConf (mkConf 0 (mkV 100 7 0)))],
          OOk (mkProd 0 (AConf (mkConf 0 (mkV 100 7 0))) None)).
 Proof. vm_compute. repeat split. Qed.
+
+(* ---- which Go types are requested forms (plugin.go isFactoryType / FactoryPluginType,
+   Registry.LookupFactory, the expectation at the head of Registry.NewFactory) ---- *)
+
+(* a type is taken as a factory type exactly when it is one of the two factory forms of the
+   property - func() P or func() (P, error) with P an interface - and its plugin type is that P *)
+Theorem C18_factory_forms : forall t,
+  is_factory_type t = match factory_form t with Some _ => true | None => false end /\
+  factory_plugin_type t = option_map fst (factory_form t).
+Proof. exact factory_type_forms. Qed.
+Print Assumptions C18_factory_forms.
+
+(* NewFactory by requested type: reaches the constructor registered for (P, name) exactly for a
+   factory form of it, with that form's error-result flag; a type that is no factory form is
+   refused (panic at creation), a form of an unregistered (P, name) is the error result *)
+Theorem C18_factory_request : forall content t n,
+  types_unique content = true ->
+  new_factory_request content t n =
+    match factory_form t with
+    | None => FqPanic
+    | Some (TyIface p, we) => if registered_b content p n then FqReaches p we else FqLookupErr
+    | Some (_, _) => FqLookupErr
+    end.
+Proof. exact new_factory_request_spec. Qed.
+Print Assumptions C18_factory_request.
+
+Example C18_factory_form_examples :
+  factory_form (mkGt true 0 [TyIface 0]) = Some (TyIface 0, false) /\
+  factory_form (mkGt true 0 [TyIface 0; TyError]) = Some (TyIface 0, true) /\
+  is_factory_type (mkGt true 0 [TyOther]) = false /\
+  is_factory_type (mkGt true 1 [TyIface 0]) = false /\
+  is_factory_type (mkGt true 0 [TyIface 0; TyIface 0]) = false /\
+  is_factory_type (mkGt false 0 []) = false /\
+  new_factory_request [(0, [0])] (mkGt true 0 [TyIface 0; TyError]) 0 = FqReaches 0 true /\
+  new_factory_request [(0, [0])] (mkGt true 0 [TyOther]) 0 = FqPanic.
+Proof. vm_compute. repeat split. Qed.
